@@ -493,7 +493,7 @@ func init() {
 		}
 	}
 	addCheck(&Check{ID: "C14", Level: "exploration",
-		Rule:   "every derivation of a bounded grammar per decoded type (SIP/SIPS URI: user x host x port x all parameter sequences of length 0-3 (thorough 0-4) x header sequences 0-2; Via: sent-protocol x host x port x parameter sequences 0-3 (thorough 0-4) x 1-5 entries; From/To: form x display name x URI x header-parameter sequences 0-3; Route/Record-Route lists of 1-3 entries; Request-URI forms; CSeq), called directly on Parse*/String; laws: decode->encode equals the generator's abstract value component-wise (independent reader), encode-decode-encode idempotent, accessors equal the components the text denotes; non-trivial = decodable value",
+		Rule:   "every derivation of a bounded grammar per decoded type (SIP/SIPS URI: user x host x port x all parameter sequences of length 0-3 (thorough 0-4) x header sequences 0-2; Via: sent-protocol x host x port x parameter sequences 0-3 (thorough 0-4) x 1-5 entries; From/To: form x display name x URI x header-parameter sequences 0-3; Route/Record-Route lists of 1-3 entries; Request-URI forms incl. sip / sips schemes written with capitals; CSeq), called directly on Parse*/String; laws: decode->encode equals the generator's abstract value component-wise (independent reader), encode-decode-encode idempotent, accessors equal the components the text denotes; non-trivial = decodable value",
 		Assume: []string{"IPv6 references and user parts containing ';' or '?' are generated as the property says and tracked in KNOWN_FINDINGS.txt"},
 		Run: func(c *Ctx) {
 			for _, k := range order {
